@@ -66,6 +66,23 @@ void elshift(sink& out, std::vector<LT> const& ls)
     }
 }
 
+// cnl::scale<-K, 2>(x): division by 2^K, truncated toward zero (what conversions between elastic scaled types with an
+// exponent difference of K use)
+template<int K, class LT>
+void elscale_down(sink& out, std::vector<LT> const& ls)
+{
+    if constexpr (cnl::digits_v<LT> > K) {
+        using R2 = decltype(cnl::_impl::scale<-K, 2>(std::declval<LT>()));
+        int id = add_inst(out, ev("Inst").str("kind", "ElScale").str("op", "scale_down").num("k", K).raw("lt", desc<LT>())
+                                       .raw("rt", desc<int>()).raw("res_t", desc<R2>()));
+        for (auto const& a : ls) {
+            R2 res{};
+            auto o = guarded([&] { res = cnl::_impl::scale<-K, 2>(a); });
+            out.put(ev("ElScale").num("i", id).raw("l", raw(a)).raw("res", o == "ok" ? raw(res) : "[0]").str("out", o).s);
+        }
+    }
+}
+
 template<class T>
 void ellimits(sink& out)
 {
@@ -97,6 +114,12 @@ void el_pair(sink& out, int salt)
         elshift<3, true>(out, lw);
         elshift<1, false>(out, lw);
         elshift<2, false>(out, lw);
+        elscale_down<1>(out, lw);
+        elscale_down<8>(out, lw);
+        elscale_down<30>(out, lw);
+        elscale_down<31>(out, lw);
+        elscale_down<32>(out, lw);
+        elscale_down<63>(out, lw);
         ellimits<LT>(out);
     }
 }
